@@ -401,10 +401,18 @@ func (d *FieldDom) Call(in *Interp, site ssa.Instruction, fn *ssa.Function, args
 	if fn.Pkg == in.P.Field && fn.Synthetic != "" && fn.Name() == "init" {
 		return nil, true
 	}
-	if fn.Pkg == in.P.Root && load.ShortName(fn) == "checkInitialized" {
-		// the guard inspects the limb representation; symbolic inputs stand for
+	if fn.Pkg == in.P.Root && in.P.Guards().IsExactGuard(fn) {
+		// the guard (in whatever shape it is written) inspects the limb representation; symbolic inputs stand for
 		// initialised points (that uninitialised ones panic is C15's rule)
 		return nil, true
+	}
+	if fn.Pkg == in.P.Root {
+		if v, ok := in.P.Guards().PredOnInitialised(fn); ok {
+			// a predicate of the guard ("was this Point ever set"): its value on initialised points
+			if types.Identical(fn.Signature.Results().At(0).Type().Underlying(), types.Typ[types.Bool]) {
+				return []Val{Bool{B: v != 0}}, true
+			}
+		}
 	}
 	if fn.String() == "crypto/subtle.ConstantTimeCompare" && len(args) == 2 {
 		// canonical encodings are equal exactly when the elements are
